@@ -528,6 +528,7 @@ class History:
         except (ZeroDivisionError, FloatingPointError, OverflowError):
             self.ctx.count(None, hist=dict(outcome="arith-exception (history ends, not compared)"))
             return False
+        self.ctor_doc_check(kw, ierr)
         st, val = model_construct(self.drv, self.ci, margs)
         if ierr is not None:
             if st != "err" or not self.same_err(ierr, val, kw.get("len_low", 0.0) < 0):
@@ -543,6 +544,44 @@ class History:
         self.compare("construct")
         self.shape_probe("construct")
         return True
+
+    def ctor_doc_check(self, kw, ierr):
+        """constructor arguments against the documented (class default) intervals, independent of the model"""
+        dkw = dict(latlon=self.latlon, temporal=self.temporal)
+        if not self.latlon:
+            if "spatial_dim" in kw:
+                dkw["spatial_dim"] = kw["spatial_dim"]
+            elif "dim" in kw:
+                dkw["dim"] = kw["dim"]
+        try:
+            ref = self.Cls(**dkw)
+        except Exception:
+            return
+        names = list(ref.arg_bounds)
+        bnd = [norm_bnd(ref.arg_bounds[n]) for n in names]
+        vals = {}
+        if self.cls not in TPL:
+            vals[0] = kw["var_raw"] if "var_raw" in kw else kw.get("var", 1.0)
+        ls = kw.get("len_scale", 1.0)
+        vals[1] = ls[0] if isinstance(ls, list) else ls
+        vals[2] = kw.get("nugget", 0.0)
+        for i, n in enumerate(names[4:]):
+            vals[4 + i] = kw[n] if n in kw else float(getattr(ref, n))
+        if any(not math.isfinite(float(v)) for v in vals.values()):
+            return
+        outside = [names[i] for i, v in vals.items() if not inside(bnd[i], v)]
+        if ierr is None and outside:
+            self.viol("probe: out-of-bounds value accepted (constructor)",
+                      "%s(%s): %s outside the default bounds %s and accepted" % (
+                          self.cls, kw, outside, {n: bnd[names.index(n)] for n in outside}),
+                      "accepted-out-of-bounds:constructor")
+        if ierr is not None and ierr[0] == 0 and ierr[1] in vals and not outside and "len_low" not in kw:
+            a = ierr[1]
+            self.viol("probe: value inside its bounds rejected (constructor)",
+                      "%s(%s): rejected because of %s = %r, which lies inside its default bounds %s (error case %d)" % (
+                          self.cls, kw, names[a], vals[a], bnd[a], ierr[2]),
+                      "rejected-inside-bounds:constructor",
+                      dict(parameter=names[a], bounds=list(bnd[a]), value=vals[a]))
 
     def same_err(self, ierr, merr, neg_len_low):
         """error kind, argument and case must agree; exception: a negative (hence rejected) len_low on a TPL class -
@@ -624,11 +663,47 @@ class History:
                           self.cls, self.kind, must_reject, op["v"], b[self.names.index(must_reject)].tolist()),
                       "accepted-out-of-bounds:%s" % k)
         if ierr is not None:
+            # documented interval semantics, independent of the model: the implementation names a parameter as out of
+            # bounds although the value just assigned to it lies inside its interval
+            assigned = None
+            if k == "nugget":
+                assigned = (2, op["v"])
+            elif k == "opt":
+                assigned = (4 + op["i"], op["v"])
+            elif k == "len_scale":
+                assigned = (1, op["v"][0])
+            elif k in ("var", "var_raw") and self.cls not in TPL:
+                assigned = (0, op["v"])
+            if ierr[0] == 0 and assigned and assigned[0] == ierr[1] and inside(b[ierr[1]], assigned[1]):
+                self.viol("probe: value inside its bounds rejected",
+                          "%s (%s): %s := %r lies inside its bounds %s and was rejected (error case %d)" % (
+                              self.cls, self.kind, self.names[ierr[1]], assigned[1], b[ierr[1]].tolist(), ierr[2]),
+                          "rejected-inside-bounds:%s" % k,
+                          dict(parameter=self.names[ierr[1]], bounds=b[ierr[1]].tolist(), value=assigned[1]))
+            elif ierr[0] == 0 and st == "ok":
+                # model accepts, implementation rejects: re-check the state the assignment leads to (as the model
+                # computed it) against the documented interval of the parameter the implementation complains about
+                mo = obs_model(self.drv, self.ci, val)
+                vals = [mo["var"], mo["len_scale"], mo["nugget"], mo["anis"]] + list(mo["opts"])
+                a = ierr[1]
+                if a < len(vals) and np.all(np.isfinite(np.atleast_1d(vals[a]))) and inside(mo["bounds"][a], vals[a]):
+                    self.viol("probe: value inside its bounds rejected",
+                              "%s (%s): after %s the parameter %s = %s lies inside its bounds %s but the assignment was rejected (error case %d)" % (
+                                  self.cls, self.kind, k, self.names[a], np.asarray(vals[a]).tolist(), mo["bounds"][a].tolist(), ierr[2]),
+                              "rejected-inside-bounds:%s" % k,
+                              dict(parameter=self.names[a], bounds=mo["bounds"][a].tolist(), value=np.asarray(vals[a]).tolist()))
             neg_low = k == "opt" and self.optn[op["i"]] == "len_low" and op["v"] < 0
             if st != "err" or not self.same_err(ierr, val, neg_low):
                 self.tie_bad.append(dict(at="step %d %s" % (len(self.ops_done), k), impl=str(ierr), model=[st, str(val)]))
             return False                                    # a raising assignment ends the history
         if st == "err":
+            # implementation accepts, model rejects: re-check the implementation's new state against the documented intervals
+            o_new = obs_impl(self.m, self.cls)
+            checked_op = k in VALUE_SETTERS or (k == "set_arg_bounds" and op["chk"] and all_inside(before))
+            if checked_op and not all_inside(o_new):
+                self.viol("probe: out-of-bounds value accepted",
+                          "%s (%s): after %s a parameter lies outside its bounds (accepted by the implementation)" % (self.cls, self.kind, k),
+                          "accepted-out-of-bounds:%s" % k, dict(observed={f: np.asarray(v).tolist() for f, v in o_new.items()}))
             self.tie_bad.append(dict(at="step %d %s" % (len(self.ops_done), k), impl="ok", model=str(val)))
             return False
         self.ms = val
@@ -801,6 +876,149 @@ def witness_probes(ctx, drv):
     return []
 
 
+# --------------------------------------------------------------------------- boundary sweep (implementation only)
+
+ITYPES = ["oo", "oc", "co", "cc"]
+
+
+def _assign(m, pname, v):
+    if pname == "anis":
+        m.anis = [v]
+    else:
+        setattr(m, pname, v)
+
+
+def _accepted(fn):
+    """True accepted, False rejected (ValueError), None arithmetic exception (not judged)"""
+    try:
+        fn()
+        return True
+    except ValueError:
+        return False
+    except (ZeroDivisionError, FloatingPointError, OverflowError, TypeError):
+        return None
+
+
+_SUBS = {}
+
+
+def _sub_with(Cls, pname, bnd):
+    key = (Cls.__name__, pname, tuple(bnd))
+    if key not in _SUBS:
+        _SUBS[key] = _sub_make(Cls, pname, bnd)
+    return _SUBS[key]
+
+
+def _sub_make(Cls, pname, bnd):
+    ref = Cls(dim=2)
+    std = {k: ref.arg_bounds[k] for k in STD}
+    ob = dict(ref.opt_arg_bounds)
+    (std if pname in STD else ob)[pname] = bnd
+    return type(Cls.__name__, (Cls,), {"default_arg_bounds": lambda self: dict(std),
+                                       "default_opt_arg_bounds": lambda self: dict(ob)})
+
+
+def boundary_sweep(ctx, only_cls=None, quick=False):
+    """every parameter with bounds x the four interval types (installed by set_arg_bounds, by the *_bounds property,
+    as class defaults, or left at the shipped defaults) x values on each end, one ulp inside and outside, and +-inf at
+    an infinite end: accepted iff the value lies in the documented interval, through the setter and the constructor.
+    Plain 2-D models (one anisotropy ratio).  Not judged: var and len_scale of the truncated-power-law classes and
+    infinite values there (their variance is var_raw * var_factor(len_scale, ...): the var check interferes)."""
+    g = gs()
+    n = 0
+    reported = set()
+    for cls in CLASSES:
+        if only_cls and cls != only_cls:
+            continue
+        Cls = getattr(g, cls)
+        ref = Cls(dim=2)
+        names = list(ref.arg_bounds)
+        tpl = cls in TPL
+        for pname in names:
+            if tpl and pname in ("var", "len_scale"):
+                continue
+            if quick and pname in STD and cls not in ("Gaussian", "Stable", "JBessel", "TPLStable"):
+                continue                # var / len_scale / nugget / anis share one code path in every class
+            dlo, dhi, dlc, dhc = norm_bnd(ref.arg_bounds[pname])
+            dtype = ("c" if dlc else "o") + ("c" if dhc else "o")
+            lo, hi = (dlo, dhi) if (pname not in STD and math.isfinite(dlo) and math.isfinite(dhi)) else (0.5, 2.0)
+            # (route, bounds tuple handed to the implementation or None for shipped defaults, (lo, hi, type))
+            configs = [("shipped-defaults", None, (dlo, dhi, dtype))]
+            for t in ITYPES:
+                configs.append(("set_arg_bounds", [lo, hi, t], (lo, hi, t)))
+                if pname in STD:
+                    configs.append(("bounds-property", [lo, hi, t], (lo, hi, t)))
+                configs.append(("class-defaults", [lo, hi, t], (lo, hi, t)))
+                if not tpl or pname == "nugget":
+                    configs.append(("set_arg_bounds", [-INF, hi, t], (-INF, hi, t)))
+                    configs.append(("set_arg_bounds", [lo, INF, t], (lo, INF, t)))
+                    configs.append(("class-defaults", [lo, INF, t], (lo, INF, t)))
+            configs.append(("set_arg_bounds", [lo, hi], (lo, hi, "cc")))        # two-element form = closed
+            for route, given, (blo, bhi, t) in configs:
+                b4 = (blo, bhi, 1.0 if t[0] == "c" else 0.0, 1.0 if t[1] == "c" else 0.0)
+                vals = []
+                for e in (blo, bhi):
+                    if math.isfinite(e):
+                        vals += [e, float(np.nextafter(e, INF)), float(np.nextafter(e, -INF))]
+                    elif not tpl or pname == "nugget":
+                        vals.append(e)
+                if pname == "anis":
+                    vals = [v for v in vals if v > 0]          # ratios <= 0 are rejected before any bounds check
+                if tpl and pname != "nugget":
+                    vals = [v for v in vals if math.isfinite(v)]
+                if pname == "len_low":
+                    vals = [v for v in vals if v >= 0 or not tpl]
+
+                def fresh():
+                    if route == "class-defaults":
+                        mid = (blo + bhi) / 2 if (math.isfinite(blo) and math.isfinite(bhi)) else (
+                            blo + 1.0 if math.isfinite(blo) else bhi - 1.0)
+                        return _sub_with(Cls, pname, given)(dim=2, **{pname: ([mid] if pname == "anis" else mid)})
+                    m = Cls(dim=2)
+                    if route == "set_arg_bounds":
+                        m.set_arg_bounds(check_args=False, **{pname: given})
+                    elif route == "bounds-property":
+                        setattr(m, pname + "_bounds", given)
+                    return m
+
+                m = None
+                for v in vals:
+                    expect = inside(b4, v)
+                    for via in ("setter", "constructor"):
+                        if via == "constructor" and route in ("set_arg_bounds", "bounds-property"):
+                            continue                            # bounds are not constructor arguments
+                        if via == "setter":
+                            if m is None:
+                                m = fresh()
+                            got = _accepted(lambda: _assign(m, pname, v))
+                            if got is not True:
+                                m = None                        # the object after a raise is not claimed
+                        else:
+                            K = Cls if route == "shipped-defaults" else _sub_with(Cls, pname, given)
+                            got = _accepted(lambda: K(dim=2, **{pname: ([v] if pname == "anis" else v)}))
+                        n += 1
+                        ptype = pname if pname in STD else "opt"
+                        ctx.count(("boundary", cls, ptype, t, route, via), hist=dict(op="boundary-sweep"))
+                        if got is None or got == expect:
+                            continue
+                        key = "bounds-semantics:%s:%s:%s" % (pname if pname in STD else "opt", t, "accepted-outside" if got else "rejected-inside")
+                        if key in reported:
+                            continue                            # one concrete input per (parameter kind, interval type, direction)
+                        reported.add(key)
+                        what = "accepted although outside" if got else "rejected although inside"
+                        ops = []
+                        if route == "set_arg_bounds":
+                            ops.append(dict(k="set_arg_bounds", chk=False, kw=[(pname, (blo, bhi, t if len(given) == 3 else None))]))
+                        elif route == "bounds-property":
+                            ops.append(dict(k="bounds_prop", n=pname, b=(blo, bhi, t)))
+                        ctx.violation("probe: interval semantics of bounds (%s, %s)" % (via, route),
+                                      "%s: %s = %r with bounds [%r, %r, %r] (%s) is %s" % (cls, pname, v, blo, bhi, t, route, what),
+                                      dict(sweep=True, cls=cls, kind="plain", ctor=dict(dim=2), parameter=pname,
+                                           bounds=[blo, bhi, t], value=v, route=route, via=via, ops=ops),
+                                      key=key)
+    ctx.notes.append("boundary sweep: %d accept/reject decisions compared with the documented interval semantics" % n)
+
+
 # --------------------------------------------------------------------------- entry points
 
 def load_own_findings(ctx):
@@ -869,6 +1087,7 @@ def run(ctx):
     try:
         if drv is not None:
             tie_broken += witness_probes(ctx, drv)
+            boundary_sweep(ctx, quick=(ctx.tier == "quick"))
             per = 3 if ctx.tier == "quick" else 60
             for rep in range(per):
                 for cls in CLASSES:
@@ -905,6 +1124,9 @@ def replay(ctx, path):
     rec = json.load(open(path))
     print(json.dumps({k: rec[k] for k in ("stage", "what")}, indent=1))
     case = rec.get("case", {})
+    if case.get("sweep"):
+        boundary_sweep(ctx, only_cls=case["cls"])
+        return ctx.finish()
     if "cls" not in case or "ops" not in case or rec.get("no_failing_input_found"):
         run(ctx)
         return ctx.finish()
